@@ -575,57 +575,100 @@ def mbap(tx, unit, pdu):
 
 
 def gen_conn_cases(r, n):
+    """consecutive connections of one channel; the session's first transaction id is near the 16-bit wrap for half of the cases.
+    Exchange kinds: genuine / exception / nothing (timeout) / stale-below+genuine / stale-above+genuine (frames whose id is below
+    AND above the outstanding one must be skipped) / late-reply+genuine (the reply to the request that just timed out arrives while
+    the next one is in flight) / torn-then-timeout followed by tail-looks-like-next-frame+genuine (a reply cut inside its PDU when
+    the deadline expires; its tail, crafted to read like a frame with the NEXT id, arrives after the next request was sent: it
+    belongs to the old frame) / torn, torn-header, full+torn before the connection dies"""
     cases = []
     while len(cases) < n:
-        conns, tx = [], 0
-        nconn = r.choice([2, 2, 3])
+        first = r.choice([0, 0, 0, 65535, 65534, 65533, 65531])
+        conns, idx = [], 0
+        nconn = r.choice([1, 2, 2, 3])
         for ci in range(nconn):
             xs = []
-            nx = r.choice([1, 1, 2])
-            for xi in range(nx):
+
+            def tx_of(i):
+                return (first + i) % 65536
+
+            def add(k, s0, cnt, unit, stream, fin, what):
+                nonlocal idx
+                xs.append({'kind': k, 'start': s0, 'count': cnt, 'unit': unit, 'tx': tx_of(idx), 'chunks': cut(r, stream, r.choice(['whole', 'random', 'random', 'bytes'])) if stream else [],
+                           'fin': fin, 'what': what, 'style': r.choice([0, 0, 1, 2])})
+                idx += 1
+
+            def req():
                 k = r.choice([1, 3, 3, 4, 6, 16])
                 if k == 6:
-                    s0, cnt = r.randrange(65536), r.randrange(65536)
-                else:
-                    cnt = r.choice([1, 1, 2, 3, 9]) if k != 16 else r.choice([1, 2])
-                    s0 = r.randrange(0, 65536 - cnt + 1)
+                    return k, r.randrange(65536), r.randrange(65536)
+                cnt = r.choice([1, 1, 2, 3, 9]) if k != 16 else r.choice([1, 2])
+                return k, r.randrange(0, 65536 - cnt + 1), cnt
+            nx = r.choice([1, 2, 2, 3])
+            while len(xs) < nx:
                 unit = r.choice([1, 17])
+                tx = tx_of(idx)
+                kind = r.choice(['genuine', 'genuine', 'exception', 'nothing', 'stale-below+genuine', 'stale-above+genuine', 'late-reply+genuine', 'torn-pair', 'torn-pair'])
+                if kind == 'torn-pair':
+                    n2 = r.choice([1, 2, 3])
+                    n1 = n2 + r.choice([5, 6, 8, 12])
+                    s1, s2 = r.randrange(0, 65536 - n1), r.randrange(0, 65536 - n2)
+                    fake = mbap(tx_of(idx + 1), unit, [3, 2 * n2] + [r.randrange(256) for _ in range(2 * n2)])     # 9 + 2*n2 bytes that read like the next reply
+                    data = [r.randrange(256) for _ in range(2 * n1 - len(fake))] + fake
+                    old = mbap(tx, unit, [3, 2 * n1] + data)
+                    c = len(old) - len(fake)                                                                         # = 2*(n1-n2): inside the register data
+                    add(3, s1, n1, unit, old[:c], 'P', 'torn-then-timeout')
+                    g2 = mbap(tx_of(idx), unit, genuine(r, 3, s2, n2))
+                    add(3, s2, n2, unit, old[c:] + g2, 'P', 'tail-looks-like-next-frame+genuine')
+                    continue
+                k, s0, cnt = req()
                 g = mbap(tx, unit, genuine(r, k, s0, cnt))
-                last = xi == nx - 1
-                kind = r.choice(['torn', 'torn', 'torn-header', 'full+torn', 'genuine', 'genuine', 'exception', 'nothing']) if last and ci < nconn - 1 \
-                    else r.choice(['genuine', 'genuine', 'genuine', 'exception', 'nothing', 'stale+genuine']) if not last \
-                    else r.choice(['genuine', 'genuine', 'genuine', 'exception', 'torn', 'nothing', 'stale+genuine'])
+                other = lambda t: mbap(t % 65536, unit, genuine(r, k, s0, cnt))          # same shape, other (random) data
+                if kind == 'genuine':
+                    stream = g
+                elif kind == 'exception':
+                    stream = mbap(tx, unit, [k | 0x80, r.choice([1, 2, 4, 6, 11, 77])])
+                elif kind == 'nothing':
+                    stream = []
+                elif kind == 'stale-below+genuine':
+                    stream = other(tx - r.choice([1, 1, 2, 100])) + g
+                elif kind == 'stale-above+genuine':
+                    stream = other(tx + r.choice([1, 1, 2, 100])) + g
+                else:                                                                       # the previous request timed out; its reply comes now
+                    if not xs or xs[-1]['what'] != 'nothing':
+                        k0, s00, c0 = req()
+                        add(k0, s00, c0, unit, [], 'P', 'nothing')
+                        tx = tx_of(idx)
+                        g = mbap(tx, unit, genuine(r, k, s0, cnt))
+                    stream = other(tx - 1) + g
+                add(k, s0, cnt, unit, stream, 'P', kind)
+            # how the connection ends
+            if ci < nconn - 1 or r.random() < 0.3:
+                unit = r.choice([1, 17])
+                k, s0, cnt = req()
+                tx = tx_of(idx)
+                g = mbap(tx, unit, genuine(r, k, s0, cnt))
+                kind = r.choice(['torn', 'torn', 'torn-header', 'full+torn', 'genuine', 'nothing'])
                 if kind == 'torn':
                     stream = g[:r.randrange(7, len(g))]
                 elif kind == 'torn-header':
                     stream = g[:r.randrange(1, 7)]
                 elif kind == 'full+torn':
-                    nxt = mbap((tx + 1) % 65536, unit, genuine(r, 3, 0, 2))
+                    nxt = mbap(tx_of(idx + 1), unit, genuine(r, 3, 0, 2))
                     stream = g + nxt[:r.randrange(1, len(nxt))]
                 elif kind == 'genuine':
                     stream = g
-                elif kind == 'exception':
-                    stream = mbap(tx, unit, [k | 0x80, r.choice([1, 2, 4, 6, 11, 77])])
-                elif kind == 'stale+genuine':
-                    stream = mbap((tx - 1) % 65536, unit, genuine(r, k, s0, cnt)) + g
                 else:
                     stream = []
-                if last and ci < nconn - 1:
-                    fin = r.choice(['Z', 'Z', 'E'])
-                elif last:
-                    fin = r.choice(['P', 'P', 'Z'])
-                else:
-                    fin = 'P'
-                xs.append({'kind': k, 'start': s0, 'count': cnt, 'unit': unit, 'tx': tx, 'chunks': cut(r, stream, r.choice(['whole', 'random', 'random', 'bytes'])), 'fin': fin,
-                           'what': kind, 'style': r.choice([0, 0, 1, 2])})
-                tx = (tx + 1) % 65536
+                add(k, s0, cnt, unit, stream, r.choice(['Z', 'Z', 'E']), kind)
             conns.append(xs)
-        cases.append(conns)
+        cases.append({'first': first, 'conns': conns})
     return cases
 
 
-def conn_line(conns):
-    toks = []
+def conn_line(case):
+    conns = case['conns']
+    toks = [f'tx={case["first"]}'] if case['first'] else []
     for ci, xs in enumerate(conns):
         if ci:
             toks.append('/')
@@ -636,22 +679,31 @@ def conn_line(conns):
     return 'T ' + ' '.join(toks)
 
 
-def conn_coq(conns):
+def conn_coq(case):
+    conns = case['conns']
     return '[' + '; '.join('[' + '; '.join(
         f'({x["kind"]}, {x["start"]}, {x["count"]}, {x["tx"]}, [{";".join(hexnum(ch) for ch in x["chunks"])}], { {"P": 0, "Z": 1, "E": 2}[x["fin"]] })' for x in xs) + ']'
         for xs in conns) + ']'
 
 
-def connections_family(ctx, n, cases=None):
+def connections_family(ctx, n, cases=None, spec_only=False):
     cases = cases or gen_conn_cases(ctx.rng, n)
     impl = ctx.harness('cconn', [conn_line(c) for c in cases])
-    ok = ctx.build_models(['Model.SystemClientConnEval'])
-    both = ctx.coq_eval(['Model.SystemClientConnEval'], 'eval_conn_case', [conn_coq(c) for c in cases], case_type='conn_case', per_shard=100) if ok else [None] * len(cases)
+    if spec_only:
+        # the model does not compile (lost translator tie): judge the implementation against the oracle alone
+        ok = ctx.build_models(['Spec.ClientSpecEval'])
+        both = ctx.coq_eval(['Base.Show', 'Base.CaseGen', 'Spec.ClientSpecEval'], 'eval_conn_spec', [conn_coq(c) for c in cases], case_type='list (list xcase_spec)',
+                            per_shard=100) if ok else [None] * len(cases)
+    else:
+        ok = ctx.build_models(['Model.SystemClientConnEval'])
+        both = ctx.coq_eval(['Model.SystemClientConnEval'], 'eval_conn_case', [conn_coq(c) for c in cases], case_type='conn_case', per_shard=100) if ok else [None] * len(cases)
     bad = 0
     classes = {}
     for c, i, b in zip(cases, impl, both):
         got = '/'.join(';'.join(rtu_canon(x) for x in conn.split(';')) for conn in i.split('|'))
-        for xs in c:
+        if c['first']:
+            classes['conn-first-tx-id-near-the-wrap'] = classes.get('conn-first-tx-id-near-the-wrap', 0) + 1
+        for xs in c['conns']:
             for x in xs:
                 classes['conn-exchange:' + x['what']] = classes.get('conn-exchange:' + x['what'], 0) + 1
         if b is None:
@@ -664,15 +716,15 @@ def connections_family(ctx, n, cases=None):
                 # first differing exchange
                 gl, sl = [x for conn in got.split('/') for x in conn.split(';')], [x for conn in spec.split('/') for x in conn.split(';')]
                 ix = next((j for j in range(min(len(gl), len(sl))) if gl[j] != sl[j]), min(len(gl), len(sl)))
-                flat = [x for xs in c for x in xs]
+                flat = [x for xs in c['conns'] for x in xs]
                 what = flat[ix]['what'] if ix < len(flat) else '?'
                 key = f'client.connections.exchange-after-reconnect.result-differs-from-the-spec' if got != spec else 'model-differs-from-impl'
-                ctx.violation(key, f'{len(c)} consecutive connections of one channel: exchange #{ix} ({what}; {KIND_NAME[flat[ix]["kind"]] if ix < len(flat) else "?"}) '
+                ctx.violation(key, f'{len(c["conns"])} consecutive connection(s) of one channel (first transaction id {c["first"]}): exchange #{ix} ({what}; {KIND_NAME[flat[ix]["kind"]] if ix < len(flat) else "?"}) '
                               f'returned `{(gl + ["(none)"])[ix][:60]}` but the Spec (each connection decided by its own bytes: ref_connections) says `{(sl + ["(none)"])[ix][:60]}`; '
                               f'all results `{got[:160]}` vs Spec `{spec[:160]}` [cconn: {conn_line(c)[:300]}]',
                               {'conn_cases': [c], 'impl': i, 'spec': spec, 'model': model}, no_failing_input=(got == spec))
     ctx.oblige('correspondence:consecutive-connections-vs-connections_from-and-ref_connections', bad == 0, f'{bad} of {len(cases)}')
-    return sum(len(xs) for c in cases for xs in c), classes
+    return sum(len(xs) for c in cases for xs in c['conns']), classes
 
 
 # ---------------------------------------------------------------------------------------------
@@ -717,9 +769,16 @@ def run(ctx):
     ctx.prove()
     if ctx.tier == 'thorough':
         ctx.coqchk()
-    if not ctx.build_harness() or not models_ok:
+    if not ctx.build_harness():
         return
     quick = ctx.quick()
+    if not models_ok:
+        # no model to evaluate: consecutive connections / transaction ids across the wrap / late replies against the Spec alone
+        if not ctx.replay or 'conn_cases' in ctx.replay:
+            n_c, cl = connections_family(ctx, 200 if quick else 6000, cases=(ctx.replay or {}).get('conn_cases'), spec_only=True)
+            ctx.coverage.update({'evaluations': n_c, 'distinct_nontrivial': n_c, 'samples': [], 'input_classes': cl,
+                                 'rule': 'the model does not compile: consecutive-connection cases judged against the Spec alone'})
+        return
     if ctx.replay and 'rtu_cases' in ctx.replay:
         n_rtu, _ = rtu_stream_family(ctx, 0, cases=ctx.replay['rtu_cases'])
         ctx.coverage.update({'evaluations': n_rtu, 'distinct_nontrivial': n_rtu, 'rule': 'replay of RTU byte-stream cases', 'samples': []})
@@ -833,7 +892,9 @@ def run(ctx):
     if not ctx.replay:
         n_conn, conn_classes = connections_family(ctx, 200 if quick else 6000)
         classes.update(conn_classes)
-        cmiss = [x for x in ('conn-exchange:torn', 'conn-exchange:torn-header', 'conn-exchange:full+torn', 'conn-exchange:genuine', 'conn-exchange:stale+genuine') if classes.get(x, 0) < 3]
+        cmiss = [x for x in ('conn-exchange:torn', 'conn-exchange:torn-header', 'conn-exchange:full+torn', 'conn-exchange:genuine', 'conn-exchange:stale-below+genuine',
+                             'conn-exchange:stale-above+genuine', 'conn-exchange:late-reply+genuine', 'conn-exchange:torn-then-timeout',
+                             'conn-exchange:tail-looks-like-next-frame+genuine', 'conn-first-tx-id-near-the-wrap') if classes.get(x, 0) < 3]
         ctx.oblige('connections-generator-reaches-expected-classes', not cmiss, f'missing={cmiss}')
     n_rtu = 0
     if not ctx.replay:
